@@ -121,6 +121,8 @@ fn main() {
                 facts!(20, DMock::m_mut);
                 facts!(23, DMock::r_rc);
                 facts!(24, DMock::p_rc2);
+                facts!(29, DMock::r_arc);
+                facts!(30, DMock::p_arc2);
             }
             writeln!(out, "--").unwrap();
             out.flush().unwrap();
